@@ -16,6 +16,7 @@ import (
 	sdk "github.com/cosmos/cosmos-sdk/types"
 	"github.com/ethereum/go-ethereum/core/types/goattypes"
 	goatcrypto "github.com/goatnetwork/goat/pkg/crypto"
+	goatmodtypes "github.com/goatnetwork/goat/x/goat/types"
 	relayertypes "github.com/goatnetwork/goat/x/relayer/types"
 	"goatverif/project"
 	"goatverif/sim"
@@ -32,7 +33,8 @@ type Session struct {
 	Run  int
 	Tick int64 // time of the last block
 
-	RelW *tracew.Writer // relayer trace (may be nil)
+	RelW  *tracew.Writer // relayer trace (may be nil)
+	LockW *tracew.Writer // locking trace (may be nil)
 
 	// harness-side interning of the randomness accumulator: hash chain over accepted vote signatures
 	rdao    []byte
@@ -80,12 +82,25 @@ type BlockPlan struct {
 	// abstract description of the relayer requests (member ids) for the trace
 	Adds, Removes []int
 	UsePrepare    bool
+	// LockAbs is the abstract (model-level) description of the locking requests, for the locking trace.
+	LockAbs Ev
+	// EvidAbs describes Misb for the trace: [{v,h,t,known}]
+	EvidAbs []Ev
 	// SkipProcess finalises the block without asking ProcessProposal first (a block that only a faulty
 	// majority could have decided, e.g. one carrying transactions the admission guard refuses).
 	SkipProcess bool
 }
 
+// HaltError reports that FinalizeBlock failed: on a real network the chain stops here.
+type HaltError struct {
+	Height int64
+	Err    error
+}
+
+func (e *HaltError) Error() string { return fmt.Sprintf("chain halted at height %d: %v", e.Height, e.Err) }
+
 type BlockResult struct {
+	Payload  *goatmodtypes.ExecutionPayload
 	Block    *sim.Block
 	Res      *abci.ResponseFinalizeBlock
 	CometErr error
@@ -140,6 +155,7 @@ func (s *Session) RunBlock(p *BlockPlan) (*BlockResult, error) {
 		}
 	}
 
+	var pl *goatmodtypes.ExecutionPayload
 	if p.UsePrepare || c.Height+1 == c.InitialHeight {
 		var mem [][]byte
 		pp, err := c.Prepare(b, mem)
@@ -147,8 +163,12 @@ func (s *Session) RunBlock(p *BlockPlan) (*BlockResult, error) {
 			return nil, fmt.Errorf("prepare: %w", err)
 		}
 		b.Txs = pp.Txs
+		if pl, err = s.PayloadOf(pp.Txs[0]); err != nil {
+			return nil, err
+		}
 	} else {
-		pl, err := c.HonestPayload(prop, uint64(time.Now().Unix()))
+		var err error
+		pl, err = c.HonestPayload(prop, uint64(time.Now().Unix()))
 		if err != nil {
 			return nil, err
 		}
@@ -170,17 +190,63 @@ func (s *Session) RunBlock(p *BlockPlan) (*BlockResult, error) {
 			return nil, fmt.Errorf("honest proposal rejected at height %d", h)
 		}
 	}
+	votesAbs := []Ev{}
+	for _, v := range b.Votes {
+		votesAbs = append(votesAbs, Ev{"v": v.Val + 1, "power": v.Power, "absent": v.Absent})
+	}
+	evidAbs := p.EvidAbs
+	if evidAbs == nil {
+		evidAbs = []Ev{}
+	}
+	s.emit(s.LockW, "begin", Ev{"h": h, "t": s.Tick, "votes": votesAbs, "evid": evidAbs})
 	res, err := c.Finalize(b)
 	if err != nil {
-		return nil, fmt.Errorf("finalize: %w", err)
+		s.emit(s.LockW, "halt", Ev{"h": h, "err": short(err.Error())})
+		s.emit(s.RelW, "halt", Ev{"h": h, "err": short(err.Error())})
+		return nil, &HaltError{Height: h, Err: err}
 	}
-	out := &BlockResult{Block: b, Res: res}
+	out := &BlockResult{Block: b, Res: res, Payload: pl}
 	out.CometErr = c.ApplyUpdates(h, res.ValidatorUpdates)
 	if err := c.Commit(); err != nil {
 		return nil, err
 	}
 	out.Engine = c.Eng.TakeLog()
 
+	// locking trace
+	if s.LockW != nil {
+		nsys := 0
+		if len(pl.ExtraData) > 0 {
+			nsys = int(pl.ExtraData[0])
+		}
+		delivered := []project.SysTx{}
+		for _, t := range project.DecodeSysTxs(pl.Transactions, nsys) {
+			if t.Kind == "reward" || t.Kind == "unlock" {
+				delivered = append(delivered, t)
+			}
+		}
+		abs := p.LockAbs
+		if abs == nil {
+			abs = EmptyLockAbs()
+			abs["gas"] = []int64{p.GasFee}
+		}
+		s.emit(s.LockW, "blockmsg", Ev{"ok": res.TxResults[0].Code == 0, "otherOk": true, "r": abs, "delivered": delivered, "log": short(res.TxResults[0].Log)})
+		st, err := project.Locking(c)
+		if err != nil {
+			return nil, err
+		}
+		ups := [][2]int64{}
+		for _, u := range res.ValidatorUpdates {
+			pk := u.PubKey.GetSecp256K1()
+			id := 0
+			for i, v := range c.KR.Vals {
+				if bytes.Equal(v.Pub.Key, pk) {
+					id = i + 1
+				}
+			}
+			ups = append(ups, [2]int64{int64(id), u.Power})
+		}
+		s.emit(s.LockW, "end", Ev{"ups": ups, "cometOk": out.CometErr == nil, "cometErr": errStr(out.CometErr), "comet": s.cometView(h + 2), "st": st})
+	}
 	// relayer trace
 	if s.RelW != nil {
 		s.emit(s.RelW, "begin", Ev{"h": h, "t": s.Tick})
@@ -213,6 +279,51 @@ func (s *Session) RunBlock(p *BlockPlan) (*BlockResult, error) {
 		s.emit(s.RelW, "end", end)
 	}
 	return out, nil
+}
+
+func errStr(e error) string {
+	if e == nil {
+		return ""
+	}
+	return short(e.Error())
+}
+
+// EmptyLockAbs is the abstract form of "no locking request but the mandatory gas report".
+func EmptyLockAbs() Ev {
+	return Ev{"gas": []int64{0}, "grants": []int64{}, "weights": []Ev{}, "thresholds": []Ev{}, "creates": []Ev{},
+		"locks": []Ev{}, "unlocks": []Ev{}, "claims": []Ev{}}
+}
+
+// cometView is CometBFT's validator set for height h as [power or -1] per validator id.
+func (s *Session) cometView(h int64) []int64 {
+	out := make([]int64, len(s.C.KR.Vals))
+	for i := range out {
+		out[i] = -1
+	}
+	set := s.C.Sets[h]
+	if set == nil {
+		return out
+	}
+	for _, v := range set.Validators {
+		if id := s.C.KR.ValID(v.Address); id > 0 {
+			out[id-1] = v.VotingPower
+		}
+	}
+	return out
+}
+
+// PayloadOf extracts the execution payload from an execution-block transaction.
+func (s *Session) PayloadOf(txBytes []byte) (*goatmodtypes.ExecutionPayload, error) {
+	tx, err := s.C.TxCfg.TxDecoder()(txBytes)
+	if err != nil {
+		return nil, err
+	}
+	for _, m := range tx.GetMsgs() {
+		if eb, ok := m.(*goatmodtypes.MsgNewEthBlock); ok {
+			return eb.Payload, nil
+		}
+	}
+	return nil, fmt.Errorf("no execution-block message")
 }
 
 func short(s string) string {
